@@ -195,10 +195,15 @@ pub fn parse_probe(kind: &str, depth: usize) -> i32 {
 
 /// Runs `yv parse-probe kind depth` with a wall-clock limit. Ok(()) = returned, Err(what) otherwise.
 fn probe_subprocess(kind: &str, depth: usize, limit_s: u64) -> Result<(), String> {
+    probe_subprocess_with("parse-probe", kind, depth, limit_s)
+}
+
+/// `yv <verb> kind depth` in a subprocess under a wall-clock limit.
+pub fn probe_subprocess_with(verb: &str, kind: &str, depth: usize, limit_s: u64) -> Result<(), String> {
     use std::os::unix::process::ExitStatusExt;
     let exe = std::env::current_exe().map_err(|e| e.to_string())?;
     let mut child = std::process::Command::new(exe)
-        .args(["parse-probe", kind, &depth.to_string()])
+        .args([verb, kind, &depth.to_string()])
         .stdout(std::process::Stdio::null())
         .stderr(std::process::Stdio::null())
         .spawn()
